@@ -1,23 +1,25 @@
 """C01 — decimal string->float parsing is correctly rounded."""
 import gens
 import vlib
+import gens_algos
 from props.common import TRUSTED_BASE, ASSUMPTIONS
 
 ID = "C01"
 LEAN_MODULES = ["LexVerif.Props.C01", "LexVerif.Props.RoundNE", "LexVerif.Props.TablesParse", "LexVerif.Props.Literals.ParseFloat", "LexVerif.Props.Literals.ParseInteger"]
 GEN = ["parse_tables", "literals"]
 TRUSTED = TRUSTED_BASE + [
-    "full correctness of Eisel-Lemire / Bellerophon / big-integer slow path is NOT proved in Lean: the proved part is the oracle (roundNE) and the tables; the algorithms are compared with the oracle on number-theoretic worst cases",
+    "Eisel-Lemire is proved only on the exact-product range 0 <= q <= 27, the two cut-offs and for the many_digits wrapper (relative to compute_float); for q in [-342,-1] and [28,308] (truncated table rows) and for the big-integer slow path correctness is NOT proved in Lean: there the Lean model (Model/Lemire.lean) is tied to the code by component-level correspondence and compared with the oracle on number-theoretic worst cases; Bellerophon (compact builds) IS proved sound on its Lean model (Props/C01.lean bellerophon_sound), the model being tied to the code by the bel component stream",
+    "IEEE assumption of the fast path: u64->float conversion, float * and / are correctly rounded (Model/ExtFloat.lean: ofU64, fmul, fdiv)",
 ]
 RULE = ("G-ties: literals that are EXACTLY half-way between two adjacent floats for every q of the round-to-even window (plus just-above/just-below variants); G-hard: per decimal power q, mantissas m < 10^19 (and near 2^53, and short) for which m*10^q is closest to a midpoint "
         "between adjacent floats (Euclid-style search, hard/hardgen.py), each as plain / pointed / truncation-crossing "
         "((m-1)999.., m000..1) / zero-padded / 20..2000-digit-tail literals; G-exp: exponents at every cut-off; random structured "
-        "decimals. non-trivial = accepted literal with a finite non-zero result or a result decided at a cut-off; distinct = distinct op lines")
+        "decimals; component level (gens_algos.py): compute_float on every q in [-342,308] x {1, 2^p-1, 2^p, 2^64-1, worst-case mantissas of hard/data and their neighbours, random, sparse}, lemire / bellerophon with many_digits and lossy both ways, try_fast_path over all exponents and boundary mantissas. non-trivial = accepted literal with a finite non-zero result or a result decided at a cut-off; distinct = distinct op lines")
 
 
-TECHNIQUE = 'Lean 4 proof (oracle roundNE nearest/ties-even; all power/limit tables kernel-checked against closed forms) + correspondence on number-theoretic worst cases'
-LEVEL_TEXT = 'Proved in Lean for all inputs: the specification oracle (roundNE is the nearest float, ties to even, monotone, exact on floats, correct overflow threshold) and, for every row, that the Eisel-Lemire / small-power / Bellerophon / big-integer tables and limits regenerated from the compiled crate equal their closed forms. NOT proved: the Eisel-Lemire, Bellerophon and big-integer algorithms themselves; they are compared with the oracle on worst-case inputs (closest-to-midpoint mantissas per power, truncation-crossing and long-tail literals, exponent cut-offs) on four to eight feature sets. Partial proof, stated as such.'
-LEVEL_NOTE = "Trusted: Lean kernel; rustc; the dump binary and generator (R); the differential harness and generators (C). The float algorithms' control flow is modelled by the oracle only (no Lean model of lemire/bellerophon/slow yet)."
+TECHNIQUE = 'Lean 4 proof (oracle roundNE nearest/ties-even; all power/limit tables kernel-checked against closed forms; fast path exact; Eisel-Lemire on its exact-product range and cut-offs; two-pass wrapper) + component- and API-level correspondence on number-theoretic worst cases'
+LEVEL_TEXT = 'Proved in Lean for all inputs: the specification oracle (roundNE is the nearest float, ties to even, monotone, exact on floats, correct overflow threshold) and, for every row, that the Eisel-Lemire / small-power / Bellerophon / big-integer tables and limits regenerated from the compiled crate equal their closed forms. Also proved on Lean models tied to the code by component-level correspondence (ops fp/cf/lm/bel): try_fast_path returns roundNE(m*10^e) whenever it answers (fastPath_exact, normal and disguised, both float types, all builds); compute_float is valid and equals roundNE(w*10^q) for every w < 2^64 when q < SMALLEST_POWER_OF_TEN, q > LARGEST_POWER_OF_TEN or 0 <= q <= 27 (lemire_sound_partial; the full statement lemire_sound is kept as a Prop); the many_digits two-pass wrapper is correct for every value in [w, w+1]*10^q relative to compute_float (lemire_wrapper). Bellerophon (the moderate path of compact builds) is proved sound on its model: every valid non-lossy answer is roundNE of the true value, truncated mantissas included (bellerophon_sound: table facts kernel-checked on the accessors, mul = exact product rounded half-up, error accounting against the truncated tables, error_is_accurate decision, rounding). NOT proved: Eisel-Lemire outside that range and the big-integer slow path; they are compared with the oracle on worst-case inputs (closest-to-midpoint mantissas per power, truncation-crossing and long-tail literals, exponent cut-offs) on four to eight feature sets. Partial proof, stated as such.'
+LEVEL_NOTE = "Trusted: Lean kernel; rustc; the dump binary and generator (R); the differential harness and generators (C); IEEE-754 correct rounding of hardware int->float, * and / (fast path). Lean models of number.rs (fast path), lemire.rs, bellerophon.rs exist and agree with the compiled code on >= 200k component ops per feature set; the slow path (slow.rs/bigint.rs) is modelled by the oracle only."
 
 
 def feature_sets(tier):
@@ -33,11 +35,13 @@ def streams(tier, rng, fs, profile):
         ("g-ties", gens.exact_tie_ops(rng, fs, per_q=6 if tier == "quick" else 60)),
         ("g-exp", gens.float_exp_ops(rng, fs, [10])),
         ("g-random", gens.float_random_ops(rng, fs, [10], 1500 if tier == "quick" else 30000)),
-    ]
+    ] + gens_algos.algo_streams(rng, fs, tier)   # component level: compute_float / lemire / bellerophon / binary / fast path
 
 
 def nontrivial(op, res):
     t = res.split(" ")
+    if op.split(" ")[0] in ("cf", "lm", "bel", "bin", "sbin", "fp"):
+        return t[0] in ("ok", "inv", "some") and (len(t) < 2 or t[1] not in ("0",))
     return t[0] == "ok" and t[1] not in ("0", "80000000", "8000000000000000", "nan")
 
 
